@@ -30,8 +30,10 @@ def install():
         return
     _orig = T.NoteRestToken.export
 
-    def export(self, **kwargs):
-        res = _orig(self, **kwargs)
+    def export(self, *args, **kwargs):
+        res = _orig(self, *args, **kwargs)
+        if args:
+            return res          # a call form the monitor does not interpret
         f = kwargs.get('filter_categories')
         if kwargs.get('convert_pitch_to_agnostic') is None:
             exp_pd = sorted(s.encoding for s in self.pitch_duration_subtokens if f is None or f(s.category))
@@ -53,9 +55,9 @@ def install():
     from kernpy.core.base_antlr_spine_parser_listener import BaseANTLRSpineParserListener as BL
     _orig_add = BL._add_decoration
 
-    def _add(self, new_decoration):
+    def _add(self, *a, **k):
         n0 = len(self.decorations)
-        r = _orig_add(self, new_decoration)
+        r = _orig_add(self, *a, **k)
         LOG['dedup_seen'] += 1
         if len(self.decorations) == n0:
             LOG['dedup_dropped'] += 1
